@@ -392,9 +392,9 @@ theorem step_RS {w : World} (hI : WInv w) (h : RS w) (e : Event) : RS (step w e)
     cases hE : evConnected w k with
     | none => exact h
     | some p => exact evConnected_RS hI h hE
-  | connFail k =>
+  | connFail k e =>
     simp only [step]
-    cases hE : evConnFail w k with
+    cases hE : evConnFail w k e with
     | none => exact h
     | some w' =>
       unfold evConnFail at hE
